@@ -186,6 +186,36 @@ pub fn spec_child(x: u64, k: u64) -> u64 {
     }
 }
 
+/// Stubs for `<[u64]>::sort_unstable_by_key` (generic, as Kani requires).
+pub fn sort_by_key_noop<T, K: Ord, F: FnMut(&T) -> K>(_v: &mut [T], _f: F) {}
+
+pub fn sort_by_key_reverse<T, K: Ord, F: FnMut(&T) -> K>(v: &mut [T], _f: F) {
+    v.reverse();
+}
+
+/// Bounded insertion sort by key (≤ 6 elements) with the contract of sort_unstable_by_key.
+pub fn sort_by_key_small<T, K: Ord, F: FnMut(&T) -> K>(v: &mut [T], mut f: F) {
+    const MAXN: usize = 6;
+    let n = v.len();
+    let mut i = 1;
+    while i < MAXN {
+        if i >= n {
+            break;
+        }
+        let mut j = i;
+        let mut k = 0;
+        while k < MAXN {
+            if !(j > 0 && f(&v[j - 1]) > f(&v[j])) {
+                break;
+            }
+            v.swap(j - 1, j);
+            j -= 1;
+            k += 1;
+        }
+        i += 1;
+    }
+}
+
 /// Sort stubs for `<[u64]>::sort_unstable` (generic, as Kani requires).
 pub fn sort_noop<T: Ord>(_v: &mut [T]) {}
 
@@ -195,7 +225,7 @@ pub fn sort_reverse<T: Ord>(v: &mut [T]) {
 
 /// Bounded insertion sort (≤ 4 elements) with the contract of sort_unstable.
 pub fn sort_small<T: Ord>(v: &mut [T]) {
-    const MAXN: usize = 4;
+    const MAXN: usize = 6;
     let n = v.len();
     let mut i = 1;
     while i < MAXN {
@@ -214,4 +244,37 @@ pub fn sort_small<T: Ord>(v: &mut [T]) {
         }
         i += 1;
     }
+}
+
+/// Stub for std's internal `core::slice::sort::unstable::sort` (the common back end of
+/// sort_unstable, sort_unstable_by and sort_unstable_by_key): bounded insertion sort (≤ 6 elements).
+pub fn sort_inner_small<T, F>(v: &mut [T], is_less: &mut F)
+where
+    F: FnMut(&T, &T) -> bool,
+{
+    const MAXN: usize = 6;
+    let n = v.len();
+    let mut i = 1;
+    while i < MAXN {
+        if i >= n {
+            break;
+        }
+        let mut j = i;
+        let mut k = 0;
+        while k < MAXN {
+            if !(j > 0 && is_less(&v[j], &v[j - 1])) {
+                break;
+            }
+            v.swap(j - 1, j);
+            j -= 1;
+            k += 1;
+        }
+        i += 1;
+    }
+}
+
+pub fn sort_inner_noop<T, F>(_v: &mut [T], _is_less: &mut F)
+where
+    F: FnMut(&T, &T) -> bool,
+{
 }
